@@ -1,4 +1,5 @@
 import Pw.Model.Render
+import Pw.Spec.Errors
 /-
   Line-protocol driver: reads `case || implementation result` lines, runs the model on the
   case, compares with the implementation's result and evaluates the property oracles on the
@@ -62,6 +63,12 @@ structure ModelOut where
   unsup : Bool
   stuffed : Bool
 
+/-- model side of the direct-call campaigns -/
+def runDirect (c : CaseIn) (kind : String) : ModelOut :=
+  if kind = "params" then
+    { out := "", ev := "n=" ++ toString (paramCount c.inp) ++ ";z=1", ending := "c", unsup := false, stuffed := false }
+  else { out := "", ev := "?", ending := "?", unsup := false, stuffed := false }
+
 def runModel (c : CaseIn) : ModelOut × Result :=
   let r := serve c.cfg c.h c.inp c.tin
   ({ out := renderOut r.out, ev := renderEvents r c.cx c.h.mws.length, ending := renderEnd r.ending,
@@ -79,20 +86,98 @@ def wellFormedOut (chunks : List Bytes) : Bool :=
     | _ => chunks
   (parseBackend chunks.flatten).isSome
 
+/-- split a backend byte stream into (type, body) frames by declared lengths only -/
+def splitFrames : Nat → Bytes → List (UInt8 × Bytes)
+  | 0, _ => []
+  | fuel + 1, b =>
+    match b with
+    | [] => []
+    | t :: r =>
+      match rd32 r with
+      | none => []
+      | some (len, r') =>
+        if len < 4 ∨ r'.length < len - 4 then []
+        else (t, r'.take (len - 4)) :: splitFrames fuel (r'.drop (len - 4))
+
+def implFrames (chunks : List Bytes) : List (UInt8 × Bytes) :=
+  let chunks := match chunks with
+    | [b] :: r => if b = ch 'N' ∨ b = ch 'S' then r else chunks
+    | _ => chunks
+  let flat := chunks.flatten
+  splitFrames flat.length flat
+
+/-- the typed messages a client sent after its (single, plain) startup packet -/
+def clientItems (L : Nat) (inp : Bytes) : List Item :=
+  match rd32 inp with
+  | some (n, _) => deframe L (inp.drop n)
+  | none => []
+
+/-- C17 oracle: the i-th ErrorResponse of the implementation must parse, under the strict
+    grammar, to exactly `Spec.expectedFields` of the error the i-th failing query specifies -/
+def oracleErrors (c : CaseIn) (chunks : List Bytes) : Option String :=
+  let items := clientItems (effLimit c.cfg.L) c.inp
+  let errs : List Err := items.filterMap fun it => match it with
+    | .msg t body => if t = ch 'Q' then
+        match cstr body with
+        | some (33 :: spec, _) => Script.parseErrSpec spec
+        | _ => none
+      else none
+    | _ => none
+  let got := (implFrames chunks).filterMap fun (t, b) => if t = ch 'E' then some b else none
+  if got.length ≠ errs.length then
+    some ("C17:error-count:" ++ toString got.length ++ "/" ++ toString errs.length)
+  else
+    (errs.zip got).findSome? fun (e, body) =>
+      if parseErrFields (body.length + 1) body = some (Spec.expectedFields e) then none
+      else some ("C17:fields:" ++ hexOf body)
+
+/-- C20 oracle (direct call): the implementation's result has the specified length and only
+    zero OIDs -/
+def oracleParams (c : CaseIn) (rkv : KV) : Option String :=
+  let want := "n=" ++ toString (paramCount c.inp) ++ ";z=1"
+  if get rkv "ev" = want then none else some ("C20:length:" ++ get rkv "ev" ++ "/" ++ want)
+
+/-- C20 oracle (Describe): the i-th ParameterDescription announces `paramCount` of the i-th
+    successfully parsed query -/
+def oracleParamsDescribe (c : CaseIn) (chunks : List Bytes) : Option String :=
+  let items := clientItems (effLimit c.cfg.L) c.inp
+  -- every Parse in this campaign succeeds and is immediately described
+  let want : List Nat := items.filterMap fun it => match it with
+    | .msg t body => if t = ch 'P' then
+        match cstr body with
+        | some (_, r) => (cstr r).map fun (q, _) => paramCount q
+        | none => none
+      else none
+    | _ => none
+  let got : List Nat := (implFrames chunks).filterMap fun (t, b) =>
+    if t = ch 't' then (rd16 b).map (·.1) else none
+  if got = want then none else some ("C20:describe-count:" ++ toString got ++ "/" ++ toString want)
+
+def oracle (c : CaseIn) (chunks : List Bytes) (rkv : KV) : Option String :=
+  if c.camp = "errors" then oracleErrors c chunks
+  else if c.camp = "params" then oracleParams c rkv
+  else if c.camp = "paramsd" then oracleParamsDescribe c chunks
+  else none
+
 def processLine (line : String) : String :=
   match line.splitOn " || " with
   | [cs, rs] =>
     let ckv := parseKV cs
     let rkv := parseKV rs
     let c := parseCase ckv
-    let (m, _) := runModel c
+    let direct := get ckv "direct"
+    let m := if direct.isEmpty then (runModel c).1 else runDirect c direct
     let iout := get rkv "out"
     let iev := get rkv "ev"
     let iend := get rkv "end"
     let same := m.out = iout ∧ m.ev = iev ∧ (m.stuffed ∨ m.ending = iend)
     let status := if m.unsup then "skip" else if same then "ok" else "diff"
-    let wf := wellFormedOut (implChunks iout)
-    let base := "id=" ++ c.id ++ " status=" ++ status ++ " wf=" ++ (if wf then "1" else "0")
+    let chunks := implChunks iout
+    let wf := wellFormedOut chunks
+    let orc := match oracle c chunks rkv with
+      | none => " oracle=ok"
+      | some why => " oracle=rej why=" ++ why
+    let base := "id=" ++ c.id ++ " status=" ++ status ++ " wf=" ++ (if wf then "1" else "0") ++ orc
     if status = "diff" then
       base ++ " mout=" ++ m.out ++ " mev=" ++ m.ev ++ " mend=" ++ m.ending
     else base
